@@ -12,6 +12,7 @@ LEVEL = {
  "C08": ("exhaustive lattice produces × success code × method × Accept × handler outcome through the real untyped stack with instrumented producers; basic-auth challenge with symbolic realm", "DESIGN.md §2 C08"),
  "C09": ("all accessor sequences up to length 3 (quick) / 5 (thorough) with call counters; sequential two-request isolation; shared-write monitor over one request from a warmed-up shared Context (inductive step for any number of concurrent requests)", "DESIGN.md §2 C09"),
  "C10": ("symbolic execution of the client URL construction (buildHTTP, PathEscape, url.Parse, EscapedPath) for path values of ≤1 (quick) / ≤2 (thorough) arbitrary bytes and placeholder-looking values over base-path × pattern catalogues, all set orders (thorough: all map iteration orders), caller/pattern/base query precedence; scheme selection exhaustive over lists of ≤3", "DESIGN.md §2 C10"),
+ "C13": ("Runtime.Submit executed symbolically behind a scripted RoundTripper ((*http.Client).Do modelled as Transport.RoundTrip): consumer selection for every response Content-Type = absent / spelling (+ parameter) / spelling ⧺ ≤1 (quick) / ≤3 (thorough) arbitrary bytes / ≤2 / ≤4 raw bytes over 5 registries, status codes and header sets through the response adapter; client/context precedence lattice (exhaustive); shared-write monitor over one Submit from a Runtime with and without an initialised client (inductive step for any number of concurrent callers)", "DESIGN.md §2 C13"),
  "C14": ("client credential writers composed with the server authenticators on the same *http.Request: user/password/token of ≤2 (quick) / ≤4 (thorough) symbolic bytes through the real base64 encode/decode, header/query/form placements and precedence, default-auth lattice", "DESIGN.md §2 C14"),
  "C18": ("exhaustive symbolic execution of TLSClientAuth over the whole option lattice with the crypto/file environment stubbed by nondeterministic outcomes; witnesses replayed against real crypto with the repository's fixtures", "DESIGN.md §2 C18"),
  "C19": ("verify() on duplicate-free lists of ≤2 (quick) / ≤3 (thorough) one-byte symbolic names with set-equality/sortedness oracles decided by SMT; Validate() over description × registration-variation catalogue (exact, each omission, additions)", "DESIGN.md §2 C19"),
